@@ -50,6 +50,102 @@ def B(k, o, n=0, early=False, r="prop"):
     return b
 
 
+# ------------------------------------------------------------------ what a failing handler raises
+class _BadStr(Exception):
+    def __str__(self):
+        raise RuntimeError("__str__ failed")
+
+    __repr__ = __str__
+
+
+def _noted():
+    e = ValueError("with notes")
+    if hasattr(e, "add_note"):
+        e.add_note("first note")
+        e.add_note("second\nnote")
+    return e
+
+
+def _group():
+    try:
+        return ExceptionGroup("several", [ValueError("a"), OSError(5, "b")])       # noqa: F821 (3.11+)
+    except NameError:
+        return RuntimeError("no ExceptionGroup")
+
+
+def _bare_assert():
+    try:
+        assert False
+    except AssertionError as e:
+        return e
+
+
+def _stop_async():
+    return StopAsyncIteration()
+
+
+# the model has ONE constructor for "the handler raises" (ORaise): containment must not depend on the
+# class, the arguments or the text of the exception.  Every entry is an Exception (BaseExceptions that are
+# not Exceptions - SystemExit, KeyboardInterrupt, asyncio.CancelledError - propagate by design: EXC_EXCLUDED)
+EXC = {
+    "runtime-msg": lambda: RuntimeError("scripted failure"),
+    "no-args": lambda: RuntimeError(),
+    "bare-assert": _bare_assert,
+    "several-args": lambda: ValueError("a", 2, None),
+    "int-arg": lambda: Exception(5),
+    "dict-arg": lambda: Exception({"k": [1, 2]}),
+    "bytes-arg": lambda: Exception(b"\xff\x00"),
+    "non-ascii": lambda: RuntimeError("d\u00e9faut \U0001F60B\nsecond line\r\n\ttab \x00"),
+    "broken-pipe": lambda: BrokenPipeError(32, "Broken pipe"),
+    "conn-reset": lambda: ConnectionResetError("reset"),
+    "conn-refused": lambda: ConnectionRefusedError(),
+    "conn-aborted": lambda: ConnectionAbortedError("aborted"),
+    "oserror": lambda: OSError(5, "Input/output error"),
+    "timeout": lambda: TimeoutError("timed out"),
+    "keyerror": lambda: KeyError("x"),
+    "indexerror": lambda: IndexError(),
+    "attributeerror": lambda: AttributeError("'NoneType' object has no attribute 'x'"),
+    "typeerror": lambda: TypeError("bad type"),
+    "valueerror": lambda: ValueError(""),
+    "stop-iteration": lambda: StopIteration(3),
+    "stop-async-iteration": _stop_async,
+    "str-raises": lambda: _BadStr("x"),
+    "notes": _noted,
+    "group": _group,
+    "incomplete-read": lambda: asyncio.IncompleteReadError(b"ab", 5),
+    "unicode-error": lambda: UnicodeDecodeError("utf-8", b"\xff", 0, 1, "invalid start byte"),
+    "recursion": lambda: RecursionError("maximum recursion depth exceeded"),
+    "memory": lambda: MemoryError(),
+    "pygls-error": lambda: __import__("pygls.exceptions", fromlist=["x"]).PyglsError("pygls"),
+}
+EXC_NAMES = sorted(EXC)
+# JSON-RPC errors a handler raises on purpose keep their own code (the model's ORaiseRpc code)
+RPC_EXC = {
+    -32001: lambda ex: ex.JsonRpcException("scripted rpc failure", -32001),
+    -32602: lambda ex: ex.JsonRpcInvalidParams("bad params"),
+    -32601: lambda ex: ex.JsonRpcMethodNotFound.of("x/y"),
+    -32603: lambda ex: ex.JsonRpcInternalError(),
+    -32800: lambda ex: ex.JsonRpcRequestCancelled("cancelled by the handler"),
+    -32803: lambda ex: ex.JsonRpcRequestFailed("failed") if hasattr(ex, "JsonRpcRequestFailed") else ex.JsonRpcException("f", -32803),
+}
+EXC_EXCLUDED = ["SystemExit", "KeyboardInterrupt", "asyncio.CancelledError", "GeneratorExit"]
+
+
+def raise_outcome(b):
+    """What a scripted handler does at its end (replaces sched.Sched._outcome: same vocabulary plus the
+    optional key "x": which exception an ["raise"] outcome raises)."""
+    o = b["o"]
+    if o[0] == "ret":
+        return o[1]
+    if o[0] == "unser":
+        return object()
+    if o[0] == "raise":
+        raise EXC[b.get("x", "runtime-msg")]()
+    import pygls.exceptions as ex
+    mk = RPC_EXC.get(o[1])
+    raise (mk(ex) if mk else ex.JsonRpcException("scripted rpc failure", o[1]))
+
+
 # ------------------------------------------------------------------ the handler the call sites pass
 class _Captured(Exception):
     pass
@@ -207,12 +303,17 @@ class Sched6(sched.Sched):
 
         def with_site_handler(stop_event, reader, protocol, logger=None, error_handler=None):
             h = capture_server_handler(protocol._server, "io_async")
+            protocol._server._stop_event = stop_event     # as in start_io: the loop runs on the server's stop event
             return real(stop_event, reader, protocol, logger, h)
         pio.run_async = with_site_handler
         try:
             super().__init__(cfg, chained, "protected")
         finally:
             pio.run_async = real
+
+    @staticmethod
+    def _outcome(b):
+        return raise_outcome(b)
 
 
 def run_sched(case):
@@ -280,14 +381,7 @@ def run_stream(case):
                 return hook(super().report_server_error, error, source)
         srv = Server("c06", "1")
 
-    def outcome(b):
-        o = b["o"]
-        if o[0] == "ret":
-            return o[1]
-        if o[0] == "raise":
-            raise RuntimeError("scripted failure")
-        from pygls.exceptions import JsonRpcException
-        raise JsonRpcException("scripted rpc failure", o[1])
+    outcome = raise_outcome
 
     @srv.feature("t/sync")
     def h(params):
@@ -307,10 +401,12 @@ def run_stream(case):
     data = b"".join(b"Content-Length: %d\r\n\r\n" % len(b) + b
                     for b in (stream_wire(f, i) for i, f in enumerate(frames)))
     stop = threading.Event()
+    srv._stop_event = stop              # as in start_io: the loop runs on the endpoint's own stop event
     term = "normal"
     if loopkind == "sync":
         handler = capture_server_handler(srv, "io_sync")
         srv.protocol.set_writer(W())
+        srv._stop_event = stop
         try:
             if case.get("rd") == "pipe":
                 r, w = os.pipe()
@@ -327,8 +423,10 @@ def run_stream(case):
         except Exception as e:        # noqa
             term = "raise:" + type(e).__name__
     elif loopkind == "client":
-        handler = capture_client_handler(srv, "io")
+        handler = capture_client_handler(srv, "io")      # (the stand-in server process "exits": the client sets its stop event)
         srv.protocol.set_writer(W())
+        stop = threading.Event()
+        srv._stop_event = stop
         loop = asyncio.new_event_loop()
         try:
             reader = asyncio.StreamReader(loop=loop)
@@ -344,6 +442,7 @@ def run_stream(case):
     else:
         handler = capture_server_handler(srv, "io_async")
         srv.protocol.set_writer(W())
+        srv._stop_event = stop
         from concurrent.futures import ThreadPoolExecutor
         pool = ThreadPoolExecutor(max_workers=1)
         r, w = os.pipe()
@@ -620,6 +719,10 @@ E2E_BAD = [
     ("raising-notif", _j({"jsonrpc": "2.0", "method": "t/boom", "params": {"x": 0}}), "FeatureNotificationError"),
     ("raising-async-notif", _j({"jsonrpc": "2.0", "method": "t/aboom", "params": {"x": 0}}), "FeatureNotificationError"),
     ("raising-request", _j({"jsonrpc": "2.0", "id": 78, "method": "t/boom", "params": {"x": 0}}), "FeatureRequestError"),
+    ("raising-request-no-args", _j({"jsonrpc": "2.0", "id": 79, "method": "t/boom", "params": {"x": "no-args"}}), "FeatureRequestError"),
+    ("raising-request-broken-pipe", _j({"jsonrpc": "2.0", "id": 80, "method": "t/boom", "params": {"x": "broken-pipe"}}), "FeatureRequestError"),
+    ("raising-async-notif-conn-refused", _j({"jsonrpc": "2.0", "method": "t/aboom", "params": {"x": "conn-refused"}}), "FeatureNotificationError"),
+    ("raising-notif-conn-reset", _j({"jsonrpc": "2.0", "method": "t/boom", "params": {"x": "conn-reset"}}), "FeatureNotificationError"),
 ]
 
 
@@ -784,6 +887,9 @@ def e2e_client(hook):
     return res, {"notes": list(range(len(bad))), "hook": len(bad), "stop": "returned", "reader_alive": True}
 
 
+LSP_EXC = ["no-args", "broken-pipe", "runtime-msg", "conn-refused", "keyerror", "str-raises", "bare-assert", "group", "oserror"]
+
+
 def lsp_session(kind, hook):
     """A real LanguageServer session in which user handlers registered ON the built-in methods all raise
     (`kind`: sync / async / thread): replies, workspace text and hook calls."""
@@ -805,11 +911,11 @@ def lsp_session(kind, hook):
         if kind == "async":
             async def h(*a, _n=name):
                 ran.append(_n)
-                raise ValueError("user handler on %s failed" % _n)
+                raise EXC[LSP_EXC[names.index(_n) % len(LSP_EXC)]]()
         else:
             def h(*a, _n=name):
                 ran.append(_n)
-                raise ValueError("user handler on %s failed" % _n)
+                raise EXC[LSP_EXC[names.index(_n) % len(LSP_EXC)]]()
             if kind == "thread":
                 h = srv.thread()(h)
         srv.feature(name)(h)
@@ -845,6 +951,7 @@ def lsp_session(kind, hook):
     handler = capture_server_handler(srv, "io_async")
     srv.protocol.set_writer(W())
     stop = threading.Event()
+    srv._stop_event = stop
     loop = asyncio.new_event_loop()
     term = "normal"
     try:
@@ -905,6 +1012,43 @@ def hook_call_sites():
                     res["inside_protecting_wrapper"].append(where)
                 elif re.search(r"report_server_error\(", line) or re.search(r"=\s*\S*report_server_error\b", line):
                     res["UNPROTECTED_calls"].append(where)
+    return res
+
+
+def odd_exception_probe():
+    """Evidence only (not judged): what the unchanged code does when a handler raises a BaseException that
+    is not an Exception, and the F32 class.  alive / own reply / reports, good neighbour answered?"""
+    saved = dict(EXC)
+    hook = threading.excepthook
+    threading.excepthook = lambda a: None
+    res = {}
+    try:
+        EXC["cancelled-error"] = lambda: asyncio.CancelledError()
+        EXC["generator-exit"] = lambda: GeneratorExit()
+        EXC["system-exit"] = lambda: SystemExit(3)
+        g = lambda i: ["recv", {"t": "req", "id": i, "ver": True, "ps": "ok", "m": ["user", B("sync", ["ret", i])]}]
+        probes = [(x, k, "req") for x in ("cancelled-error", "generator-exit", "system-exit") for k in ("sync", "async", "thread")]
+        for x, k, t in probes:
+            bad = ["recv", {"t": "req", "id": 1000, "ver": True, "ps": "ok", "m": ["user", dict(B(k, ["raise"], n=0), x=x)]}]
+            evs = [g(1), bad, ["task", 0], ["cb", 0], ["jstart", 0], ["jfin", 0], g(2)]
+            try:
+                r = run_sched({"cfg": {"writer": "blocking", "hook": "quiet", "wfail": None}, "evs": evs})
+                out = [f for o in r["obs"] for f in o["out"]]
+                res["%s/%s-request" % (x, k)] = {
+                    "loop_alive": r["obs"][-1]["alive"], "exit": r["obs"][-1]["exit"],
+                    "own_reply": [f[2:] for f in out if f[0] == "resp" and f[1] == 1000],
+                    "neighbour_2_answered": any(f[0] == "resp" and f[1] == 2 for f in out),
+                    "reports": [e for o in r["obs"] for e in o["errs"]]}
+            except BaseException as e:      # noqa
+                res["%s/%s-request" % (x, k)] = "harness: " + type(e).__name__
+        bad = ["recv", {"t": "notif", "tag": 500, "ver": True, "ps": "ok", "m": ["user", B("sync", ["rpc", -32601])]}]
+        r = run_sched({"cfg": {"writer": "blocking", "hook": "quiet", "wfail": None}, "evs": [g(1), bad, g(2)]})
+        res["F32 JsonRpcMethodNotFound raised by a sync notification handler"] = {
+            "reports": [e for o in r["obs"] for e in o["errs"]], "loop_alive": r["obs"][-1]["alive"]}
+    finally:
+        EXC.clear()
+        EXC.update(saved)
+        threading.excepthook = hook
     return res
 
 
@@ -985,6 +1129,22 @@ class C06(core.Property):
         o = rng.choice([["ret", rng.choice([0, 1, 7, -3])]] * 5 + [["raise"], ["rpc", -32001]] + ([] if sync_only else [["unser"]]))
         return B(k, o, n=rng.choice([0, 1, 1, 2]), early=rng.random() < 0.2, r=rng.choice(["prop", "prop", "swallow"]))
 
+    @staticmethod
+    def vary(rng, f):
+        """Give every raising behaviour of a frame an exception shape / a JSON-RPC error class."""
+        for b in C06._behavs(["recv", f]):
+            if b["o"][0] == "raise":
+                b["x"] = rng.choice(EXC_NAMES)
+            elif b["o"][0] == "rpc":
+                codes = sorted(RPC_EXC)
+                if f["t"] == "notif" and b["k"] == "sync":
+                    # finding candidate F32: _handle_notification takes a JsonRpcMethodNotFound raised BY the
+                    # handler for "unknown method" (logged, not reported): kept out of the judged dimension,
+                    # probed and recorded in the evidence (base_and_odd_exception_probe)
+                    codes.remove(-32601)
+                b["o"] = ["rpc", rng.choice(codes)]
+        return f
+
     def _ubehav(self, rng):
         """The user feature registered under a built-in's name (None: none): mostly raising."""
         if rng.random() < 0.4:
@@ -1031,6 +1191,9 @@ class C06(core.Property):
         if allow_shutdown and rng.random() < 0.2 and ids:
             msgs.insert(rng.randint(max(0, len(msgs) - 2), len(msgs)),
                         ["recv", {"t": "req", "id": ids.pop(), "ver": True, "ps": "ok", "m": ["shutdown", None if sync_only else self._ubehav(rng)]}])
+        for e in msgs:
+            if e[0] == "recv":
+                self.vary(rng, e[1])
         return msgs
 
     def _members(self, rng, k, sync_only=False):
@@ -1041,7 +1204,8 @@ class C06(core.Property):
             if sync_only:
                 cat = [c for c in cat if SYNC_ONLY(c[1]) and c[1].get("m", [""])[0] != "command"
                        and c[1].get("m", [""])[0] != "builtin"]
-            res.append(rng.choice(cat))
+            name, f, who = rng.choice(cat)
+            res.append((name, self.vary(rng, copy.deepcopy(f)), who))
         return res
 
     def _place(self, good, members, positions):
@@ -1130,8 +1294,38 @@ class C06(core.Property):
                 for p in range(len(good) + 1):
                     if chk.quick and (ci + p + g) % 3:
                         continue
-                    items, bad = self._place(good, [(name, f, who)], [p])
+                    items, bad = self._place(good, [(name, self.vary(rng, copy.deepcopy(f)), who)], [p])
                     scens.append((self._cfg(rng, ci + p + g), items, bad, [name]))
+        return self._interleave(chk, scens)
+
+    def gen_exceptions(self, chk):
+        """Every exception shape x {sync, async, thread} x {request, notification} (thorough: x every
+        raising catalogue member incl. the chained ones), between two good requests, three hooks."""
+        rng = chk.rng
+        scens = []
+        g1 = ["recv", {"t": "req", "id": 1, "ver": True, "ps": "ok", "m": ["user", B("async", ["ret", 5], n=1)]}]
+        g2 = ["recv", {"t": "req", "id": 2, "ver": True, "ps": "ok", "m": ["user", B("sync", ["ret", 6])]}]
+        cat = [c for c in catalogue(1000, 500) if any(b["o"][0] == "raise" for b in self._behavs(["recv", c[1]]))]
+        if chk.quick:
+            cat = [c for c in cat if c[0] in ("raise/req-sync-raise", "raise/req-async2-raise", "raise/req-thread-raise",
+                                              "raise/notif-sync-raise", "raise/notif-async0-raise", "raise/notif-thread-raise",
+                                              "chained/req-initialize-sync-raise")]
+        a = 0
+        for x in EXC_NAMES:
+            for name, f, who in cat:
+                f = copy.deepcopy(f)
+                for b in self._behavs(["recv", f]):
+                    if b["o"][0] == "raise":
+                        b["x"] = x
+                items, bad = self._place([g1, g2], [(name, f, who)], [1])
+                scens.append((self._cfg(rng, a), items, bad, [name, "exc/" + x]))
+                a += 1
+        for code in sorted(RPC_EXC):
+            for kind in ("sync", "async", "thread"):
+                f = {"t": "req", "id": 1000, "ver": True, "ps": "ok", "m": ["user", B(kind, ["rpc", code], n=1)]}
+                items, bad = self._place([g1, g2], [("raise/req-%s-rpc" % kind, f, ["req", 1000])], [1])
+                scens.append((self._cfg(rng, a), items, bad, ["raise/req-%s-rpc" % kind, "exc/rpc%d" % code]))
+                a += 1
         return self._interleave(chk, scens)
 
     def gen_random(self, chk, n):
@@ -1205,8 +1399,9 @@ class C06(core.Property):
     def generate(self, chk):
         cases = list(self.corpus())
         cases += self.gen_positions(chk)
-        cases += self.gen_random(chk, chk.n(1100, 12000))
-        cases += self.gen_streams(chk, chk.n(300, 3000))
+        cases += self.gen_exceptions(chk)
+        cases += self.gen_random(chk, chk.n(800, 12000))
+        cases += self.gen_streams(chk, chk.n(200, 3000))
         cases += self.gen_finding(chk, chk.n(10, 100))
         if not chk.quick:
             cases += self.gen_pairs(chk)
@@ -1254,8 +1449,19 @@ class C06(core.Property):
             return {"M": M, "S": S, "guard": False, "klass": F30}
         return {"M": M, "S": S if guard else None, "guard": guard, "klass": None}
 
+    @staticmethod
+    def _no_show(x):
+        """The hook's own window/showMessage output is not a property-level observable of C06 (the statement's
+        `core` drops it: e.g. the default hook fails on an exception whose __str__ raises, and is contained)."""
+        if isinstance(x, dict):
+            return {k: ([f for f in v if not (isinstance(f, list) and f[:2] == ["notif", "showMessage"])] if k == "out"
+                        else C06._no_show(v)) for k, v in x.items()}
+        if isinstance(x, list):
+            return [C06._no_show(v) for v in x]
+        return x
+
     def same(self, case, impl, M):
-        return core.canon(impl) == core.canon(M)
+        return core.canon(self._no_show(impl)) == core.canon(self._no_show(M))
 
     def satisfies(self, case, impl, S):
         """impl |= S, judged on the two REAL runs: (ii) after every event the run with the marked frames,
@@ -1266,7 +1472,7 @@ class C06(core.Property):
         if core.canon(S["erased"]) != core.canon(case["erased"]):
             return False
         w, o = impl["with"], impl["without"]
-        if case["cfg"]["hook"] == "raises" and core.canon(impl.get("quiet")) != core.canon(w):
+        if case["cfg"]["hook"] == "raises" and core.canon(self._no_show(impl.get("quiet"))) != core.canon(self._no_show(w)):
             return False
         if case.get("loop", "sched") != "sched":
             a = core_view(dict(w, exit=None, closed=False, alive=w["term"] == "normal"), case["bad"])
@@ -1370,6 +1576,12 @@ class C06(core.Property):
                              "S": dict(want, note="identical under both hooks; initialize / executeCommand / shutdown answered with their results"),
                              "verdict": "violation"})
         cov["hook_call_sites"] = hook_call_sites()
+        cov["exception_shapes_judged"] = EXC_NAMES + ["rpc%d" % c for c in sorted(RPC_EXC)]
+        cov["exception_classes_excluded"] = EXC_EXCLUDED
+        try:
+            cov["base_and_odd_exception_probe"] = odd_exception_probe()
+        except Exception as e:      # noqa
+            cov["base_and_odd_exception_probe"] = "probe failed: " + repr(e)
         cov["end_to_end_runs"] = runs
         cov["end_to_end_bad_frames_per_run"] = len(E2E_BAD)
         self.extra_coverage = dict(getattr(self, "extra_coverage", {}) or {}, **cov)
@@ -1388,6 +1600,10 @@ class C06(core.Property):
             add("len/%d" % (10 * (len(c["evs"]) // 10)))
             for n in c.get("cat", []):
                 add("bad/" + n)
+            for e in c["evs"]:
+                for b in self._behavs(e):
+                    if b["o"][0] == "raise":
+                        add("exc/" + b.get("x", "runtime-msg"))
         return d
 
 
